@@ -67,7 +67,9 @@ RevHunks(hs) == [i \in 1..Len(hs) |-> [cell |-> hs[i].cell, from |-> hs[i].to, t
 RevBody(fp) == [fp EXCEPT !.kind = IF fp.kind = "C" THEN "D" ELSE IF fp.kind = "D" THEN "C" ELSE "M",
                           !.hunks = RevHunks(fp.hunks), !.to = fp.from, !.from = fp.to,
                           !.new = fp.old, !.old = fp.new,
-                          !.nmode = IF fp.nmode # NoMode /\ fp.kind = "M" THEN "644" ELSE NoMode]
+                          \* (git's deletion of an empty file is a header with "deleted file mode 100644": reversed, that is the new file's mode)
+                          !.nmode = IF fp.nmode # NoMode /\ fp.kind = "M" THEN "644"
+                                    ELSE IF fp.kind = "D" /\ fp.from = <<>> THEN "644" ELSE NoMode]
 
 (* Inputs on which the statement of the properties is not decisive (DESIGN 2.5): a rename whose
    source does not exist (the tool reports success and creates an empty target, GNU patch refuses),
